@@ -1236,7 +1236,14 @@ impl ManageConnection for ServerPool {
 
     /// Synchronously determine if the connection is no longer usable, if possible.
     fn has_broken(&self, conn: &mut Self::Connection) -> bool {
-        conn.is_bad()
+        if conn.is_bad() {
+            return true;
+        }
+
+        // The client task can bail out (error or panic) without running `checkin_cleanup`.
+        // A connection that still carries that client's state must not be handed to the next one.
+        // Mirror connections are never shared between clients.
+        self.address.role != Role::Mirror && conn.has_leftover_state()
     }
 }
 
